@@ -59,8 +59,10 @@ fn successors(cfg: Cfg, h: &Hist, events: &[Ev], alphabet: &[Out]) -> (Vec<Child
     (out, replays, panics)
 }
 
-fn witness(cfg: &Cfg, h: &Hist, at: u32) -> Value {
+fn witness(cfg: &Cfg, h: &Hist, at: u32, ticks: u32) -> Value {
     json!({
+        // one mark per maintenance tick executed: vpc keeps the smallest witness per class, this makes it prefer short-running histories
+        "ticks_executed": "|".repeat(ticks.min(400) as usize),
         "config": cfg.name,
         "max_cached": cfg.max_cached,
         "min_refetch_delay_s": cfg.min_delay,
@@ -130,15 +132,17 @@ fn phases(quick: bool, arg: &dyn Fn(&str) -> Option<u64>) -> Vec<Phase> {
         al.push(o(Set::P1, p));
         al.push(o(Set::P12, p));
     }
-    v.push(Phase { name: "expiry", what: "clock advances (incl. one late tick) x lookup outcomes {Err, Ok{}, Ok{p4}, Ok{p2}, Ok{p1}/Ok{p1,p2} x 4 expiry profiles}; no issue events", events: ev, alphabet: al, max_depth: arg("--depth-expiry").unwrap_or(if quick { 3 } else { 4 }) as usize, share: 0.3 });
+    v.push(Phase { name: "expiry", what: "clock advances (incl. one late tick) x lookup outcomes {Err, Ok{}, Ok{p4}, Ok{p2}, Ok{p1}/Ok{p1,p2} x 4 expiry profiles}; no issue events", events: ev, alphabet: al, max_depth: arg("--depth-expiry").unwrap_or(if quick { 3 } else { 4 }) as usize, share: 0.25 });
     // 3. issue focus: all issue kinds, Deliver, advances incl. > 20 half-lives; lookups keep the path set stable
-    let mut ds = deltas.clone();
-    ds.push(long);
+    let ds = [1, 4, 11, 41, 91, long];
     let mut ev = adv(&ds);
     ev.extend(issues.iter().copied());
     ev.push(Ev::Deliver);
     let al = vec![o(Set::Err, 0), o(Set::P1, 0), o(Set::P2, 0), o(Set::P12, 0), o(Set::P123, 0)];
-    v.push(Phase { name: "issues", what: "all issue kinds, Deliver, clock advances incl. 1801 s (> 20 half-lives) x lookup outcomes {Err, Ok{p1}, Ok{p2}, Ok{p1,p2}, Ok{p1,p2,p3}} all far-expiry", events: ev, alphabet: al, max_depth: arg("--depth-issues").unwrap_or(if quick { 3 } else { 5 }) as usize, share: 0.3 });
+    v.push(Phase { name: "issues", what: "all issue kinds, Deliver, clock advances incl. 1801 s (> 20 half-lives) x lookup outcomes {Err, Ok{p1}, Ok{p2}, Ok{p1,p2}, Ok{p1,p2,p3}} all far-expiry; advances {1,4,11,41,91,1801}", events: ev, alphabet: al, max_depth: arg("--depth-issues").unwrap_or(if quick { 3 } else { 5 }) as usize, share: 0.25 });
+    // 4. issue memory: one issue re-reported inside / outside the dedup window, distinct issues; tiny alphabet, deep
+    let ev = vec![Ev::Adv(1), Ev::Adv(4), Ev::Issue(0), Ev::Issue(2), Ev::Issue(3), Ev::Issue(5), Ev::Deliver];
+    v.push(Phase { name: "issue-memory", what: "Issue(0,2,3,5), Deliver, Adv(1) (inside the 3 s dedup window), Adv(4) (outside); lookups Ok{p1,p2} far", events: ev, alphabet: vec![o(Set::P12, 0)], max_depth: arg("--depth-mem").unwrap_or(if quick { 5 } else { 7 }) as usize, share: 0.1 });
     if let Some(only) = arg("--phase") {
         return v.into_iter().enumerate().filter(|(i, _)| *i as u64 == only).map(|(_, p)| p).collect();
     }
@@ -155,7 +159,7 @@ pub fn run(args: &vpc::Args) -> ! {
     let run = vpc::Run::new(args);
     let quick = run.tier == vpc::Tier::Quick;
     let arg = |name: &str| args.extra.iter().position(|a| a == name).and_then(|i| args.extra.get(i + 1)).and_then(|v| v.parse::<u64>().ok());
-    let budget_s = arg("--budget").unwrap_or(if quick { 50 } else { 840 }) as f64;
+    let budget_s = arg("--budget").unwrap_or(if quick { 300 } else { 840 }) as f64;
     let branch_ticks = arg("--branch-ticks").unwrap_or(1) as usize;
     MAX_BRANCH_TICKS.store(branch_ticks, Ordering::Relaxed);
 
@@ -189,7 +193,7 @@ pub fn run(args: &vpc::Args) -> ! {
                 let base = v.class.trim_end_matches("+late-tick").to_string();
                 let class = if v.class.ends_with("+late-tick") && reported.borrow().contains(&base) { base.clone() } else { v.class.clone() };
                 reported.borrow_mut().insert(class.clone());
-                run.violation(&class, &format!("[cfg {} max_cached {}] {} :: history: {}", cfg.name, cfg.max_cached, v.what, hist_text(&c.hist)), witness(cfg, &c.hist, v.at));
+                run.violation(&class, &format!("[cfg {} max_cached {}] {} :: history: {}", cfg.name, cfg.max_cached, v.what, hist_text(&c.hist)), witness(cfg, &c.hist, v.at, c.stats.ticks));
             } else {
                 *other.entry(format!("{}:{}", v.prop, v.class.trim_end_matches("+late-tick"))).or_default() += 1;
             }
@@ -226,7 +230,7 @@ pub fn run(args: &vpc::Args) -> ! {
             let (children, rp, panics) = successors(*cfg, &vec![], &[Ev::Init], &ph.alphabet);
             ph_replays += rp;
             for p in panics {
-                panics_seen.entry(p.0.clone()).or_insert_with(|| (format!("[cfg {}] {} :: history: {}", cfg.name, p.0, hist_text(&p.1)), witness(cfg, &p.1, 0)));
+                panics_seen.entry(p.0.clone()).or_insert_with(|| (format!("[cfg {}] {} :: history: {}", cfg.name, p.0, hist_text(&p.1)), witness(cfg, &p.1, 0, 0)));
             }
             let mut n = 0;
             for c in children {
@@ -256,7 +260,7 @@ pub fn run(args: &vpc::Args) -> ! {
                     for (children, rp, panics) in results {
                         ph_replays += rp;
                         for p in panics {
-                            panics_seen.entry(p.0.clone()).or_insert_with(|| (format!("[cfg {}] {} :: history: {}", cfg.name, p.0, hist_text(&p.1)), witness(cfg, &p.1, 0)));
+                            panics_seen.entry(p.0.clone()).or_insert_with(|| (format!("[cfg {}] {} :: history: {}", cfg.name, p.0, hist_text(&p.1)), witness(cfg, &p.1, 0, 0)));
                         }
                         for c in children {
                             ph_trans += 1;
